@@ -40,6 +40,32 @@ impl Tk for u8 {
     }
 }
 
+/// a token whose every instance is registered in the drop ledger (C19: the caller's tokens are never
+/// dropped or duplicated other than by Clone)
+#[derive(Clone, Debug)]
+pub struct TTok {
+    pub c: char,
+    pub t: Tracked,
+}
+impl PartialEq for TTok {
+    fn eq(&self, o: &Self) -> bool {
+        self.c == o.c
+    }
+}
+impl std::fmt::Display for TTok {
+    fn fmt(&self, f: &mut std::fmt::Formatter<'_>) -> std::fmt::Result {
+        write!(f, "{}", self.c)
+    }
+}
+impl Tk for TTok {
+    fn from_char(c: char) -> Self {
+        TTok { c, t: Tracked::new(7777) }
+    }
+    fn to_char(&self) -> char {
+        self.c
+    }
+}
+
 pub trait Sp: chumsky::span::Span + Clone + Debug + 'static {
     fn se(&self) -> (usize, usize);
     fn tag(&self) -> u32 {
@@ -520,9 +546,10 @@ impl<'s, T: Tk> Kind<'s> for &'s [T] {
 }
 
 pub type CharStream = chumsky::input::Stream<std::vec::IntoIter<char>>;
-impl<'s> Kind<'s> for CharStream {
+pub type TokStream<T> = chumsky::input::Stream<std::vec::IntoIter<T>>;
+impl<'s, T: Tk> Kind<'s> for TokStream<T> {
     value_kind_prims!();
-    type Tok = char;
+    type Tok = T;
     type Spn = SimpleSpan;
     const HAS_SLICE: bool = false;
     fn slice_node<R: Er<'s, Self>>(_p: BP<'s, Self, R>) -> BP<'s, Self, R> {
@@ -1089,6 +1116,18 @@ impl<'s, I: Kind<'s>, R: Er<'s, I>> Bld<'s, I, R> {
                 })
                 .boxed(),
             Unwrapped(a) => self.build(a).map(Some).unwrapped().boxed(),
+            IntoIter(a, k) => {
+                let it = self.build(a).map(|v: Val| v.into_items()).into_iter();
+                match *k {
+                    0 => it.collect::<Vec<Val>>().map(Val::List).boxed(),
+                    1 => it.count().map(|n| Val::Num(n as u64)).boxed(),
+                    2 => it.collect_exactly::<[Val; 0]>().map(|a| Val::List(a.into())).boxed(),
+                    3 => it.collect_exactly::<[Val; 1]>().map(|a| Val::List(a.into())).boxed(),
+                    4 => it.collect_exactly::<[Val; 2]>().map(|a| Val::List(a.into())).boxed(),
+                    5 => it.collect_exactly::<[Val; 3]>().map(|a| Val::List(a.into())).boxed(),
+                    _ => it.collect_exactly::<[Val; 4]>().map(|a| Val::List(a.into())).boxed(),
+                }
+            }
             G::Rep(r) => self.rep(r),
             Validate(a, t, n) => {
                 let (t, n) = (*t, *n);
